@@ -217,7 +217,7 @@ class Alph:
         mags = [10.0 ** k for k in ((-6, -3, 0, 3, 6) if q else range(-6, 7))]
         self.mags = mags
         gv = alph.pick(alph.G_VEC3[:6], tier, seed, 2)
-        self.v3 = [('0', (0.0, 0.0, 0.0)), ('ex', (1.0, 0.0, 0.0))]
+        self.v3 = [('0', (0.0, 0.0, 0.0)), ('ex', (1.0, 0.0, 0.0)), ('-2.5ex', (-2.5, 0.0, 0.0)), ('-ey', (0.0, -1.0, 0.0))]      # single NEGATIVE components: sqrt(x**2) is |x|
         for gn, g in gv:
             for m in mags:
                 self.v3.append(('%s*1e%d' % (gn, round(math.log10(m))), tuple(float(c) * m for c in g)))
@@ -225,10 +225,10 @@ class Alph:
             self.v3 += [('-ez*1e6', (0.0, 0.0, -1e6)), ('ey', (0.0, 1.0, 0.0))]
         self.v2 = [(n, v[:2]) for n, v in self.v3 if n != '-ez*1e6']
         # short vector alphabet for forms with two vector groups
-        self.v3s = [l for l in self.v3 if l[0] in ('0', 'ex') or l[0].endswith('*1e0') or l[0].endswith('*1e6')
+        self.v3s = [l for l in self.v3 if l[0] in ('0', 'ex', '-2.5ex') or l[0].endswith('*1e0') or l[0].endswith('*1e6')
                     or l[0].endswith('*1e-6')]
         if q:
-            self.v3s = [l for i, l in enumerate(self.v3s) if i < 2 or l[0].startswith(gv[0][0] + '*') or l[0].endswith('*1e0')]
+            self.v3s = [l for i, l in enumerate(self.v3s) if i < 3 or l[0].startswith(gv[0][0] + '*') or l[0].endswith('*1e0')]
         self.len1 = [('0', (0.0,)), ('1e-6', (1e-6,)), ('1', (1.0,)), ('g', (-2.5,)), ('1e6', (1e6,))]
         self.len1s = list(self.len1)
         if not q:
